@@ -97,7 +97,7 @@ theorem load_build (h : Fields) (ok : h.OK) (rest : Bytes) :
     ofLE_toLE 4 _ (show h.channelNum < 256 ^ 4 by omega), ofLE_toLE 4 _ (show h.samplingFrequency < 256 ^ 4 by omega),
     ofLE_toLE 4 _ (show h.bitsPerSample < 256 ^ 4 by omega), ofLE_toLE 8 _ (show h.sampleCount < 256 ^ 8 by omega),
     ofLE_toLE 8 _ (show 12 + h.data.length < 256 ^ 8 by omega), ne_eq, not_true_eq_false, ↓reduceIte]
-  rw [if_neg (by omega), if_neg (by omega)]
+  rw [if_neg (by omega), if_neg (by omega), if_neg (by omega)]
   rfl
 
 /-- what the code reports on a specification-built file -/
@@ -108,8 +108,7 @@ theorem parse_build (h : Fields) (ok : h.OK) (rest : Bytes) :
         length := .div (.flt (.nat h.sampleCount)) (.nat h.samplingFrequency) } := by
   unfold parse
   rw [load_build h ok rest]
-  have : ¬ h.samplingFrequency = 0 := by unfold Fields.OK at ok; omega
-  simp only [attrs, fmtOf, this, ↓reduceIte]
+  simp only [attrs, fmtOf]
 
 theorem load_clean (f : Bytes) (e : PyErr) (h : load f = .error e) : e = .mutagen := by
   unfold load at h
@@ -126,26 +125,14 @@ theorem load_clean (f : Bytes) (e : PyErr) (h : load f = .error e) : e = .mutage
   refine (ite_err _ _ _ h).elim id (fun h => ?_)
   refine (ite_err _ _ _ h).elim id (fun h => ?_)
   refine (ite_err _ _ _ h).elim id (fun h => ?_)
+  refine (ite_err _ _ _ h).elim id (fun h => ?_)
   cases h
 
-/-- the sampling frequency is read from bytes 56…59 -/
-theorem load_rate (f : Bytes) (c : Fmt) (h : load f = .ok c) : c.samplingFrequency = ofLE (readAt f 56 4) := by
-  unfold load at h
-  simp only [] at h
-  have h := ite_ok _ _ _ (ite_ok _ _ _ (ite_ok _ _ _ (ite_ok _ _ _ (ite_ok _ _ _ (ite_ok _ _ _ (ite_ok _ _ _
-    (ite_ok _ _ _ (ite_ok _ _ _ (ite_ok _ _ _ (ite_ok _ _ _ (ite_ok _ _ _ h)))))))))))
-  cases h
-  simp only [readAt_readAt f 28 52 28 4 (by omega)]
-
-theorem parse_classes (f : Bytes) (e : PyErr) (h : parse f = .error e) :
-    e = .mutagen ∨ (e = .zeroDiv ∧ ofLE (readAt f 56 4) = 0) := by
+/-- every exception of loading a DSF file and reading the attributes is the format's error -/
+theorem parse_clean (f : Bytes) (e : PyErr) (h : parse f = .error e) : e = .mutagen := by
   unfold parse at h
   split at h
-  · rename_i e' he; cases h; exact .inl (load_clean f _ he)
-  · rename_i c hc
-    unfold attrs at h
-    split at h
-    · rename_i h0; cases h; exact .inr ⟨rfl, by rw [← load_rate f c hc]; exact h0⟩
-    · cases h
+  · rename_i e' he; cases h; exact load_clean f _ he
+  · unfold attrs at h; cases h
 
 end Mutagen.Info.Dsf
